@@ -217,8 +217,9 @@ type agg struct {
 }
 
 type hit struct {
-	res *run.Result
-	v   run.Violation
+	res       *run.Result
+	v         run.Violation
+	batchFrom uint64 // first seed of the worker process that executed the run
 }
 
 func newAgg() *agg {
@@ -227,7 +228,7 @@ func newAgg() *agg {
 		nontrivial: map[string]bool{}, hashes: map[string]bool{}, nodeTypes: map[string]int{}, funcs: map[string]int{}}
 }
 
-func (a *agg) add(p string, r *run.Result, spec func() *run.Spec) {
+func (a *agg) add(p string, r *run.Result, batchFrom uint64, spec func() *run.Spec) {
 	a.runs++
 	a.ops += r.Ops
 	a.events += r.Events
@@ -295,7 +296,7 @@ func (a *agg) add(p string, r *run.Result, spec func() *run.Spec) {
 		a.tainted = append(a.tainted, fmt.Sprintf("seed %d: %s", r.Seed, r.Note))
 	}
 	for _, v := range r.Violations {
-		a.violations = append(a.violations, &hit{res: r, v: v})
+		a.violations = append(a.violations, &hit{res: r, v: v, batchFrom: batchFrom})
 	}
 	if len(a.samples) < 3 {
 		a.samples = append(a.samples, sampleOf(r, spec()))
@@ -433,7 +434,7 @@ func doCheck(cfg propCfg) int {
 					infra = append(infra, inf...)
 					for _, r := range results {
 						r := r
-						a.add(*prop, r, func() *run.Spec { return run.Generate(*prop, r.Seed, *tier) })
+						a.add(*prop, r, from, func() *run.Spec { return run.Generate(*prop, r.Seed, *tier) })
 					}
 					mu.Unlock()
 					doneHere := len(results)
@@ -489,6 +490,23 @@ func doCheck(cfg propCfg) int {
 		}
 		got, res := confirm(cfg, spec, h.v)
 		if got == nil {
+			// Not reproducible alone: does it depend on process-wide state
+			// left behind by earlier runs of the same worker process (state
+			// the reset hook does not know about - itself a matter of
+			// "whatever any other expression in the process has evaluated
+			// before")? Then the replay unit is the batch prefix.
+			if bf, bv := confirmBatch(cfg, h.batchFrom, h.res.Seed, h.v); bv != nil {
+				kh := sha256.Sum256([]byte(bv.Key))
+				path := filepath.Join(*verif, "replays", fmt.Sprintf("%s-%d-%s-%s-batch.json", *prop, h.res.Seed, sanitize(bv.Class), hex.EncodeToString(kh[:3])))
+				os.MkdirAll(filepath.Dir(path), 0o755)
+				bf.Expect = &run.Expect{Class: bv.Class, Key: bv.Key}
+				b, _ := json.MarshalIndent(bf, "", " ")
+				os.WriteFile(path, b, 0o644)
+				o := outcome{key: k, v: *bv, replay: path, seed: h.res.Seed, reproduc: true}
+				o.known = known.match(*bv)
+				outcomes = append(outcomes, o)
+				continue
+			}
 			unconfirmed++
 			fmt.Printf("UNCONFIRMED property=%s class=%s key=%q seed=%d: did not reproduce alone in a fresh process (not reported)\n", *prop, h.v.Class, h.v.Key, h.res.Seed)
 			continue
@@ -751,6 +769,9 @@ func doReplay(cfg propCfg) int {
 	if err != nil {
 		fmt.Fprintln(os.Stderr, err)
 		return 2
+	}
+	if bytes.Contains(b, []byte(`"batch": true`)) || bytes.Contains(b, []byte(`"batch":true`)) {
+		return replayBatch(cfg, b)
 	}
 	var spec run.Spec
 	if err := json.Unmarshal(b, &spec); err != nil {
